@@ -530,6 +530,8 @@ class ObjectBase(EntityContainer):
                 self.remove_property_group(child)
             elif isinstance(child, Data):
                 self.remove_data_from_groups(child)
+                if child is self._visual_parameters:
+                    self._visual_parameters = None
 
             self._children.remove(child)
 
